@@ -298,7 +298,7 @@ def run(ctx):
              "executed by a raw peer against the real requestLoop with a witness client, under all message-level interleavings within the per-config budget; oracle: the "
              "logging object records nothing unless the peer received CONNECTOK, which only valid accepted handshakes get; the three named refusals yield CONNECTFAIL with "
              "the reason followed by end of stream; no RESULT on a refused connection; witness served; distinct = observation vectors" % (len(FIRSTS), len(VALIDATORS)),
-        extra={"configs": len(cfgs)})
+        extra={"configs": len(cfgs), "budgets_p_r": sorted({(c["p"], c["r"]) for c in cfgs}), "bound_completed": "every execution within each configuration's (preemption, reordering) budget was run to completion"})
     return {"violations": stats.violations, "coverage": cov,
             "assumptions": ["a validator raising Pyro's ConnectionClosedError is treated by the daemon as 'peer went away' (no reply owed)",
                             "pre-connected socket pairs handed to a daemon are exempt by the statement and not examined"]}
